@@ -927,6 +927,16 @@ def run(ctx: Any) -> None:
         for _ in range(n_urls):
             a = ALLOWLISTS[0] if rng.random() < 0.5 else rng.choice(ALLOWLISTS)
             urls.append((gen_url(rng, a), a))
+        # exhaustive small spaces: every short string around the allow-listed host / every short path over the critical alphabet
+        import itertools
+
+        full = ctx.tier == "thorough" or deep
+        alpha_rt = ["@", "\\", "/", ":", ".", "#", "?", "[", "]", "%", " ", "\t", "e"]
+        affixes = [""] + alpha_rt + (["".join(p) for p in itertools.product(alpha_rt, repeat=2)] if full else [])
+        for a_ in affixes:
+            for b_ in affixes:
+                urls.append(("https://" + a_ + "cupola.query-farm.services" + b_, DEFAULT_ALLOW))
+        ctx.note("exhaustive_return_to_affixes", len(affixes) ** 2)
         urls = [(u, a) for u, a in urls if no_surrogates(u)]
         k_split(ctx, sorted({u for u, _ in urls}))
         rt_results = k_return_to(ctx, m, urls)
@@ -955,6 +965,15 @@ def run(ctx: Any) -> None:
                 u = mutate(rng, p + rng.choice(PATHS) + rng.choice(QUERIES) + rng.choice(FRAGS), rng.choice([0, 1, 2]))
             if no_surrogates(u):
                 origs.append((u, p))
+        alpha_ou = ["/", "\\", ".", "a", "%", "2", "e", "?", "\t"]
+        n_exh = 0
+        for ln in range(0, (5 if full else 3) + 1):
+            for tup in itertools.product(alpha_ou, repeat=ln):
+                s_ = "".join(tup)
+                origs.append((s_, ""))
+                origs.append(("/a" + s_, "/a"))
+                n_exh += 2
+        ctx.note("exhaustive_original_url_strings", n_exh)
         ou_results = k_original(ctx, m, origs)
         for (u, p), res in zip(origs, ou_results):
             if "ok" in res:
